@@ -114,6 +114,19 @@ func c15Parse(argv []string) (o mOpts, files []string, bad bool, ambiguous bool)
 			default:
 				return o, files, true, false
 			}
+			// the long spellings take the same optional separate value (known finding)
+			if val == "" && i < len(argv) && argv[i] != "--" && (len(argv[i]) == 0 || argv[i][0] != '-') {
+				switch name {
+				case "keep", "stdout", "decompress", "compress", "force":
+					if boolWords[argv[i]] {
+						ambiguous = true
+					}
+				case "quiet", "verbose":
+					if _, err := strconv.Atoi(argv[i]); err == nil {
+						ambiguous = true
+					}
+				}
+			}
 			continue
 		}
 		for j, c := range a[1:] {
@@ -742,6 +755,12 @@ func runC15(r *core.Run) {
 		for _, o := range []string{"-k", "-f", "-c", "-v", "-q"} {
 			add([]c15File{{n, "plain:small", 0o644}}, []string{o, n})
 			add([]c15File{{n, "plain:small", 0o644}}, []string{o, "--", n})
+		}
+	}
+	// file names that begin with digits directly after a counter option (-v, -q take an optional number)
+	for _, n := range []string{"2024-report.txt", "1.txt", "7z-notes.md", "0x10.bin", "3"} {
+		for _, o := range [][]string{{"-v"}, {"-q"}, {"-vv"}, {"-k", "-v"}, {"--verbose"}} {
+			add([]c15File{{n, "plain:small", 0o644}, pf("other.txt")}, append(append([]string{}, o...), n, "other.txt"))
 		}
 	}
 	// 4b. full product: option set x format x name kind x content kind, each also with every
